@@ -27,6 +27,7 @@ def run(chk):
     clones.rule_threshold_tests(chk, 'N3', floor=20)
     clones.rule_defuse(chk, 'D1', 'D2', ('cipher',), floor=50)
     clones.rule_tables(chk, 'N5', ('cipher',), floor=20)
+    clones.rule_unreachable(chk, 'U1', ('cipher',), floor=20)
     from . import twins as _tw
     _tw.rule_copy_siblings(chk, cf.PROGRAM[0] or cf.Program(), 'X5', floor=100)
     _tw.rule_field_copies(chk, cf.PROGRAM[0] or cf.Program(), 'X4', floor=120)
